@@ -16,7 +16,9 @@ import GoLucene.Proofs.SqlWideP2
 
   What `confinedFilter` adds to `cleanFilter` (each with an example below):
     * string ranges with exclusive brackets, open ends (`BETWEEN '*' AND 'x'`), a quoted `*` bound;
-    * float bounds of any finite value (`%.2f` re-formatting), open float ranges (`BETWEEN '*' AND 2.25`), floats that
+    * float bounds of any finite value (`%.2f` re-formatting; also in OPEN float ranges: `f:[* TO 0.001]` is
+      `"f" <= 0.00` — since fix F12 an open float range is a comparison, no longer `BETWEEN '*' AND 2.25`, and the
+      two-decimal ones are in `cleanFilter`), floats that
       print as integers (`%d` re-formatting), mixed int / float bounds, mixed-kind bounds (`BETWEEN 1 AND 'b'`),
       ints beyond int64 (read back as floats), `[* TO *]` (rendered `<= 0`);
     * LIKE patterns with `%`, `_`, SIMILAR TO metacharacters; `/…/` patterns (operator `~`);
@@ -51,7 +53,8 @@ open GoLucene Sql SqlMeaning SqlText
 /-! ## the renderings of a value, spelled out -/
 
 theorem rendersOfW_str (s : Bytes) (h : (s != [42]) = true) : rendersOfW (.str s) = [.str s, .str (starPattern s)] := by
-  simp [rendersOfW, rendersOf, reInt, reFlt, toIntB_quote s h, toFltB_quote s]
+  have hp : parseFloat (sqlQuote s) = none := parseFloat_quote _
+  simp [rendersOfW, rendersOf, reInt, reFlt, toIntB_quote s h, hp]
 
 theorem rendersOfW_star : rendersOfW (.str [42]) = [.str [42], .str [37], .num false [48]] := by
   have h1 : toIntB (sqlQuote [42]) = some 0 := by decide +kernel
@@ -59,15 +62,14 @@ theorem rendersOfW_star : rendersOfW (.str [42]) = [.str [42], .str [37], .num f
   have h3 : intAst 0 = .num false [48] := by
     have : fmtInt 0 = [48] := by decide
     simp [intAst, this]
-  simp [rendersOfW, rendersOf, reInt, reFlt, h1, toFltB_quote, h2, h3]
+  have hp : parseFloat (sqlQuote [42]) = none := parseFloat_quote _
+  simp [rendersOfW, rendersOf, reInt, reFlt, h1, hp, h2, h3]
 
 theorem mem_rendersOfW_int (i : Int) (k : Ast) (h : k ∈ rendersOfW (.int i)) :
     k = intAst i ∨ ∃ g, parseFloat (fmtInt i) = some g ∧ g.isFinite = true ∧ k = fixedAst g := by
   have e1 : toIntB (fmtInt i) = atoi (fmtInt i) := by
     unfold toIntB; rw [allNum_ne_starQ (fmtInt_numCh i)]; rfl
-  have e2 : toFltB (fmtInt i) = parseFloat (fmtInt i) := by
-    unfold toFltB; rw [allNum_ne_star (fmtInt_numCh i)]; rfl
-  simp only [rendersOfW, rendersOf, reInt, reFlt, e1, e2, List.mem_append, List.mem_singleton] at h
+  simp only [rendersOfW, rendersOf, reInt, reFlt, e1, List.mem_append, List.mem_singleton] at h
   rcases h with (h | h) | h
   · exact .inl h
   · cases ha : atoi (fmtInt i) with
@@ -84,7 +86,7 @@ theorem mem_rendersOfW_int (i : Int) (k : Ast) (h : k ∈ rendersOfW (.int i)) :
 
 theorem mem_rendersOfW_flt (f : F64) (hf : f.isFinite = true) (k : Ast) (h : k ∈ rendersOfW (.flt f)) :
     k = numTextAst (fmtG f) ∨ k = fixedAst f ∨ ∃ i, atoi (fmtG f) = some i ∧ k = intAst i := by
-  have e2 : toFltB (fmtG f) = some f := toFltB_flt f hf
+  have e2 : parseFloat (fmtG f) = some f := FloatRT.parseFloat_fmtG f hf
   simp only [rendersOfW, rendersOf, reInt, reFlt, toIntB_flt, e2, List.mem_append, List.mem_singleton,
     List.mem_cons, List.not_mem_nil, or_false] at h
   rcases h with ((h | h) | h) | h
@@ -154,8 +156,10 @@ def wOr (a c : Expr) : Expr := .mk (.expr a) .or (.expr c) F64.one 1
 
 /-- `f:[* TO x]` -/
 def exOpenStr : Expr := wRange (exField [102]) (wWild [42]) (exLit (.str [120])) true
-/-- `f:[* TO 2.25]` -/
+/-- `f:[* TO 2.25]` (since fix F12 in `cleanFilter`) -/
 def exOpenFlt : Expr := wRange (exField [102]) (wWild [42]) (exLit (.flt f225)) true
+/-- `f:{0.001 TO *}`: an open float range that `%.2f` rounds (outside `cleanFilter`) -/
+def exOpenFltRound : Expr := wRange (exField [102]) (exLit (.flt f0001)) (wWild [42]) false
 /-- `f:[1 TO b]` -/
 def exMixed : Expr := wRange (exField [102]) (exLit (.int 1)) (exLit (.str [98])) true
 /-- `f:[1 TO 2.25]` -/
@@ -174,7 +178,7 @@ def exBare : Expr :=
 
 /-- all of them (and the four counterexamples of SqlMeaning) in one query -/
 def exWide : Expr :=
-  wAnd (wAnd (wAnd cexExcl exOpenStr) (wAnd cexRound exOpenFlt))
+  wAnd (wAnd (wAnd cexExcl exOpenStr) (wAnd cexRound (wAnd exOpenFlt exOpenFltRound)))
     (wOr (wOr (wAnd exMixed exIntFlt) (wAnd cexUnderscore cexLong))
       (wOr (wAnd exNumField exStarStar) (wAnd exBig (wAnd exRegex exBare))))
 
@@ -196,8 +200,15 @@ example : (toAstW exOpenStr == some (.between (.col [102]) (.str [42]) (.str [12
 -- `"f" >= 0.00 AND "f" <= 0.00`
 example : (toAstW cexRound == some (.and (.cmp .ge (.col [102]) (.num false [48, 46, 48, 48]))
     (.cmp .le (.col [102]) (.num false [48, 46, 48, 48])))) = true := by decide +kernel
--- `"f" BETWEEN '*' AND 2.25`
-example : (toAstW exOpenFlt == some (.between (.col [102]) (.str [42]) (.num false [50, 46, 50, 53]))) = true := by
+-- `"f" <= 2.25` (before fix F12 of `toFloats`: `"f" BETWEEN '*' AND 2.25`)
+example : (toAstW exOpenFlt == some (.cmp .le (.col [102]) (.num false [50, 46, 50, 53]))) = true := by
+  decide +kernel
+example : render pgFns exOpenFlt = .ok (b "\"f\" <= 2.25") := by decide +kernel
+example : cleanFilter exOpenFlt = true := by decide +kernel
+-- `"f" > 0.00`
+example : (toAstW exOpenFltRound == some (.cmp .gt (.col [102]) (.num false [48, 46, 48, 48]))) = true := by
+  decide +kernel
+example : render pgFns exOpenFltRound = .ok (b "\"f\" > 0.00") ∧ cleanFilter exOpenFltRound = false := by
   decide +kernel
 -- `"f" BETWEEN 1 AND 'b'`
 example : (toAstW exMixed == some (.between (.col [102]) (.num false [49]) (.str [98]))) = true := by decide +kernel
